@@ -45,8 +45,13 @@ CLAIMED = {
          "exactly spec_decode's fields (342 fixed-layout definitions), tied to the real decoder by whole-history correspondence "
          "incl. final source map and reassembly store; E2E_fast_packet / E2E_fast_any_entry (OblE2Efast.v): the same FRAME BY FRAME for "
          "fast-packet PGNs (199 of the 342 fixed-layout definitions): the EByte packets of segment seq payload, from any state whose "
-         "record for the key is fresh, return nothing until the last frame and then the expected message, source map unchanged, key removed. PARTIAL: the database attribute Offset (23 fields) is ignored by the code (known finding) and is decided by the "
-         "witness search; the 75 variable-layout definitions are covered by the table obligation and the correspondence only.",
+         "record for the key is fresh, return nothing until the last frame and then the expected message, source map unchanged, key removed. "
+         "E2E_any_entry_var / E2E_single_frame_var / E2E_all_formats_var / E2E_undispatched_var / E2E_claim_var and E2E_fast_*_var (same "
+         "modules): the same end-to-end statements for EVERY definition of var_def with spec_decode_var's fields - all 417 definitions "
+         "owning a function, the 75 variable-layout ones included (272 of them fast-packet, frame by frame); E2E_claim_var is the one "
+         "that applies to the real address-claim definition (it carries an INDIRECT_LOOKUP). "
+         "PARTIAL: the database attribute Offset (23 fields) is ignored by the code (known finding) and is decided by the "
+         "witness search; malformed variable-length strings get the lenient reading documented in SpecVar.v.",
          "Trusted: Coq kernel + vm_compute + native float/int63 primitives; translators tr_pgns.py/tr_db.py (cross-examined by "
          "running the real generated decoders against run_ddef on the translated tables); hand models Fields.v/PyNum.v of "
          "utils.py and CPython int/float arithmetic, tied by ~12k kernel-decided cases per run. Known finding: database "
